@@ -212,6 +212,13 @@ def classify(out, res, p):
             spans.append({'unit_line': sp['line_start'], 'origin': o, 'origin_line': ln, 'label': sp.get('label'),
                           'text': (sp.get('text') or [{}])[0].get('text', '').strip()[:200]})
         rec = {'msg': msg, 'spans': spans}
+        # clause-level property tags: `//@C01,C02` at the end of the first line of an ensures clause
+        for sp in spans:
+            if sp.get('label') and 'failed this postcondition' in sp['label']:
+                line_txt = res.text.split('\n')[sp['unit_line'] - 1] if 0 < sp['unit_line'] <= len(res.linemap) else ''
+                mm = re.search(r'//@\s*([C0-9,\s]+)$', line_txt)
+                if mm:
+                    rec['props'] = [x.strip() for x in mm.group(1).split(',') if x.strip()]
         if TOOL_LIMIT_PAT.search(msg):
             out.tool_limited.setdefault(fn['path'], []).append(rec)
         else:
